@@ -10,7 +10,8 @@
    without it the invariant is false (Proofs/BrokerHolder.v: clear_current_needed). *)
 From Coq Require Import List String NArith ZArith Bool.
 Import ListNotations.
-From GMQ Require Import Broker.Model Proofs.BrokerFrames Proofs.BrokerTags Proofs.BrokerChanInv Proofs.BrokerHeld Proofs.BrokerHolder.
+From GMQ Require Import Broker.Model Proofs.BrokerFrames Proofs.BrokerTags Proofs.BrokerChanInv Proofs.BrokerHeld Proofs.BrokerHolder
+  Proofs.BrokerDurable Proofs.BrokerSettled.
 Open Scope N_scope.
 
 (* ---- the invariant: every label of the step function, restart included ---- *)
@@ -294,6 +295,42 @@ Theorem C02_noack_get_never_again_graceful :
     ~ In u (held (fst (run cfg fx s' ls2)) (q_id qu)).
 Proof. exact noack_get_never_again_graceful. Qed.
 Print Assumptions C02_noack_get_never_again_graceful.
+
+(* ---- THE END-TO-END THEOREM (Proofs/BrokerSettled.v): all messages, all ways of settling ---- *)
+(* the invariant behind it, the converse of store completeness: in every state reached by a graceful run every key of the
+   effective store belongs to a live durable queue, names a persistent message, and that queue object holds the message *)
+Theorem C02_store_sound_reachable :
+  forall cfg fx ls, Fixed fx -> graceful ls = true ->
+    forall u qn, eff (fst (run cfg fx (init cfg) ls)) (u, qn) ->
+      exists qid, In (qn, qid) (nmv (fst (run cfg fx (init cfg) ls))) /\ durb (fst (run cfg fx (init cfg) ls)) qn = true /\
+                  persb (fst (run cfg fx (init cfg) ls)) u = true /\ In u (held (fst (run cfg fx (init cfg) ls)) qid).
+Proof. exact store_sound_reachable. Qed.
+Print Assumptions C02_store_sound_reachable.
+
+(* in a state reached by a graceful run: a published message (id allocated, not being assembled) that the queue object qid (an id
+   that was allocated: an existing or a past object) does not hold is never held by it in any graceful continuation *)
+Theorem C02_settled_is_never_held_again :
+  forall cfg fx ls1 ls2 qid u,
+    Fixed fx -> graceful (ls1 ++ ls2) = true ->
+    let s1 := fst (run cfg fx (init cfg) ls1) in
+    u < next_uid s1 -> ~ In u (all_cur s1) -> qid < next_qid s1 ->
+    ~ In u (held s1 qid) -> ~ In u (held (fst (run cfg fx s1 ls2)) qid).
+Proof. exact settled_is_never_held_again. Qed.
+Print Assumptions C02_settled_is_never_held_again.
+
+(* ... in the form of C02_settled_never_again: held once, held no more, never held again - now across graceful restarts *)
+Theorem C02_settled_never_again_graceful_all :
+  forall cfg fx ls0 ls1 ls2 qid u,
+    Fixed fx -> graceful (ls0 ++ ls1 ++ ls2) = true ->
+    let s0 := fst (run cfg fx (init cfg) ls0) in
+    let s1 := fst (run cfg fx s0 ls1) in
+    In u (held s0 qid) -> ~ In u (held s1 qid) -> ~ In u (held (fst (run cfg fx s1 ls2)) qid).
+Proof. exact settled_never_again_graceful_all. Qed.
+Print Assumptions C02_settled_never_again_graceful_all.
+
+Theorem C02_all_fixed_is_fixed : Fixed all_fixed.
+Proof. exact Fixed_all_fixed. Qed.
+Print Assumptions C02_all_fixed_is_fixed.
 
 (* Non-vacuity: two consumers on one queue, one message.  The first turn hands it to c1; c2's turn finds nothing (the message
    is out: held = [] ++ [1]); after nack-requeue it is handed to c2, flagged redelivered; after the ack nobody gets it again. *)
